@@ -375,16 +375,21 @@ class BaseToNamespace(Conversion):
     classes = ("BaseSamples", "SMCSamples")
 
     def shapes(self):
-        return conv_shapes(self.classes)
+        out = [dict(s, dtype=None) for s in conv_shapes(self.classes)]
+        # an explicit precision, spelled as a string: it is resolved in the *target* namespace and wins over the source's width
+        if self.qual == "samples:BaseSamples.to_namespace":      # Samples.to_namespace takes no dtype argument
+            out += [dict(s, dtype=d) for s in conv_shapes(self.classes) for d in ("float32", "float64") if s["present"] in (0, len(PRESENT) - 1)]
+        return out
 
     def setup(self, I, shape):
         s = mk_token_samples(shape["cls"], shape["src"], shape["w"], PRESENT[shape["present"]], I=I)
-        tag = f"{shape['cls']} {shape['src']} float{shape['w']} -> {shape['tgt']}"
-        return Pre(s, [ns(shape["tgt"])], ghost={"snap": dict(s.f), "cls": shape["cls"], "shape": shape, "tag": tag})
+        tag = f"{shape['cls']} {shape['src']} float{shape['w']} -> {shape['tgt']}" + (f", dtype='{shape['dtype']}'" if shape.get("dtype") else "")
+        kw = {"dtype": Str(shape["dtype"])} if shape.get("dtype") else {}
+        return Pre(s, [ns(shape["tgt"])], kw, ghost={"snap": dict(s.f), "cls": shape["cls"], "shape": shape, "tag": tag})
 
     def post(self, I, pre, r):
         sh = pre.ghost["shape"]
-        self.check(I, pre, r, sh["tgt"], sh["w"], f"[{pre.ghost['tag']}]", evidence=False)
+        self.check(I, pre, r, sh["tgt"], int(sh["dtype"][-2:]) if sh.get("dtype") else sh["w"], f"[{pre.ghost['tag']}]", evidence=False)
 
 
 from contracts.aspire_api import ToNamespaceModel  # noqa: E402
@@ -396,7 +401,7 @@ class SamplesToNamespace(BaseToNamespace, ToNamespaceModel):
 
     def post(self, I, pre, r):
         sh = pre.ghost["shape"]
-        self.check(I, pre, r, sh["tgt"], sh["w"], f"[{pre.ghost['tag']}]", evidence=True)
+        self.check(I, pre, r, sh["tgt"], int(sh["dtype"][-2:]) if sh.get("dtype") else sh["w"], f"[{pre.ghost['tag']}]", evidence=True)
 
 
 class BaseToNumpy(Conversion):
